@@ -169,3 +169,60 @@ Proof.
   split; [exact I|]. split; [simpl; split; [discriminate|split; [discriminate|]]; rewrite HR1; apply coherent_nil|].
   cbn [gstepR]. vm_compute step. cbv iota beta. exact I.
 Qed.
+
+(* ------------------------------------------------------------------ a continuation of two phases (C12_eventually) *)
+From Coq Require Import Permutation.
+From SF Require Import Sched.Eventually.
+Definition ev_reqs1 : list (string * hw) := [("d0/n0", mkhw 3 1 root0)].
+Definition ev_w : event := EAttempt "/s/1" [[ex_level]] ev_reqs1 1 [].
+Definition ev_pre : list event := [EAttempt "/s/0" [[ex_level]] plain_reqs 1 []; ev_w].      (* /s/1 waits: 2 of 4 cores free *)
+Definition ev_fl1 : list free_level := [mkfl None [("n0", Some [("/", 0)])]].
+Definition ev_H : list event :=
+  ENotify "/s/0" Failed (plain_free 3) :: [ev_w] ++ (ENotify "/s/1" Completed ev_fl1 :: [] ++ []).
+
+Lemma ev_conformant : conformant hw_locs init (ev_pre ++ ev_H).
+Proof.
+  unfold ev_pre, ev_H, ev_w. cbn [app conformant].
+  split; [split; [reflexivity|split; [simpl; lia|split]]|].
+  { intros c [Hc|[]]. subst. exists ex_level. split; [reflexivity|left; reflexivity]. }
+  { intros k h [Hi|[]]. inversion Hi. subst. split; [split; [discriminate|intros d [Hd|[]]; subst; simpl; lia]|simpl; lia]. }
+  split; [reflexivity|]. vm_compute step. cbv iota beta.
+  split; [split; [reflexivity|split; [simpl; lia|split]]|].
+  { intros c [Hc|[]]. subst. exists ex_level. split; [reflexivity|left; reflexivity]. }
+  { intros k h [Hi|[]]. inversion Hi. subst. apply wfr_small; lia. }
+  split; [reflexivity|]. vm_compute step. cbv iota beta.
+  (* /s/0 FIREABLE -> FAILED, du 3 of 6 *)
+  split; [intros fl rest Hf; inversion Hf; reflexivity|].
+  split.
+  { simpl. split; [discriminate|split; [discriminate|]]. intros fl rest nm jh1 u Hf Hloc Hn Hu m.
+    inversion Hf. subst fl rest. vm_compute in Hloc. inversion Hloc. subst nm.
+    vm_compute in Hn. inversion Hn. subst jh1. vm_compute in Hu. inversion Hu. subst u.
+    unfold size_at. cbn [total values stor map snd mount size]. destruct (String.eqb "/" m); lia. }
+  vm_compute step. cbv iota beta.
+  (* the round: /s/1 is granted *)
+  split; [split; [reflexivity|split; [simpl; lia|split]]|].
+  { intros c [Hc|[]]. subst. exists ex_level. split; [reflexivity|left; reflexivity]. }
+  { intros k h [Hi|[]]. inversion Hi. subst. apply wfr_small; lia. }
+  split; [reflexivity|]. vm_compute step. cbv iota beta.
+  (* /s/1 COMPLETED *)
+  split; [intros fl rest Hf; inversion Hf; reflexivity|].
+  split.
+  { simpl. split; [discriminate|split; [discriminate|]]. intros fl rest nm jh1 u Hf Hloc Hn Hu m.
+    inversion Hf. subst fl rest. vm_compute in Hloc. inversion Hloc. subst nm.
+    vm_compute in Hn. inversion Hn. subst jh1. vm_compute in Hu. inversion Hu. subst u.
+    unfold size_at. cbn [total values stor map snd mount size]. destruct (String.eqb "/" m); lia. }
+  vm_compute step. cbv iota beta. exact I.
+Qed.
+
+Lemma ev_phases : exists st st', run init ev_pre = Ok st /\ phases_seq st [ev_w] ev_H st' [] 2 /\ nact st' = 0 /\ nact st = 1.
+Proof.
+  eexists. eexists. split; [vm_compute; reflexivity|]. split.
+  { unfold ev_H. eapply (ps_cons _ _ "/s/0" Failed (plain_free 3) [ev_w]).
+    - split; [vm_compute; reflexivity|]. split; [reflexivity|]. split; [apply Permutation_refl|].
+      eexists. split; vm_compute; reflexivity.
+    - eapply (ps_cons _ _ "/s/1" Completed ev_fl1 []).
+      + split; [vm_compute; reflexivity|]. split; [reflexivity|]. split; [apply Permutation_refl|].
+        eexists. split; vm_compute; reflexivity.
+      + apply ps_nil. }
+  split; vm_compute; reflexivity.
+Qed.
